@@ -48,3 +48,28 @@ Theorem C07_entries_true :
    forall u, In u us -> 1 <= up_version u /\ up_version u <= n) \/ Bad.
 Proof. exact updates_sound. Qed.
 Print Assumptions C07_entries_true.
+
+(* Default mode, MostRecent(r): an accepted proof yields exactly the newest min(r, n) entries of the
+   true account, newest first - the latest version cannot be hidden, nothing is skipped, reordered,
+   invented or misdated *)
+Theorem C07_recent_history_sound :
+  forall (cfg : config) (Bad : Prop), Binding cfg Bad ->
+  forall (vrf_check : bytes -> bytes -> bytes -> option bytes) (pk ck l : bytes) (t : tree),
+  tree_ok t -> wf_root t = true ->
+  forall nlabel_of : bool -> N -> nlabel,
+  (forall f v, llen (nlabel_of f v) = 256 /\ WF (nlabel_of f v) /\ LW (nlabel_of f v)) ->
+  (forall proof f v out, vrf_check pk proof (label_input_hash cfg l f v) = Some out -> NL out 256 = nlabel_of f v) ->
+  forall (n : N) (val_of : N -> bytes) (ep_of : N -> N),
+  (forall v, Len64 (val_of v)) -> (forall v, ep_of v < 2 ^ 64) ->
+  (forall y v, In y (leaves t) -> lf_label y = nlabel_of true v ->
+     1 <= v /\ v <= n /\ lf_value y = fresh_value cfg ck (nlabel_of true v) v (val_of v) /\ lf_epoch y = ep_of v) ->
+  (forall v, 1 <= v -> v < n -> In (nlabel_of false v) (map lf_label (leaves t))) ->
+  (forall v, Len64 (c_commitment_nonce cfg ck (nl_to_bytes (nlabel_of true v)) v (val_of v))) ->
+  (forall v, 1 <= v -> v <= n -> In (nlabel_of true v) (map lf_label (leaves t))) ->
+  forall (E : N) (p : history_proof) (rs : list verify_result) (r : N), hp_ok p ->
+  1 <= n -> n <= E -> E < 2 ^ 64 ->
+  key_history_verify cfg vrf_check pk (root_hash cfg true t) E l p (HMostRecent r) false = Some rs ->
+  (rs = map (true_entry val_of ep_of) (map (fun i => n - N.of_nat i) (seq 0 (length rs))) /\
+   N.of_nat (length rs) = N.min r n) \/ Bad.
+Proof. exact history_recent_sound. Qed.
+Print Assumptions C07_recent_history_sound.
